@@ -44,11 +44,13 @@ Rep(s, n) == IF n <= 0 THEN <<>> ELSE s \o Rep(s, n - 1)
 RECURSIVE JoinLines(_, _, _)
 JoinLines(line, sep, n) == IF n <= 1 THEN line ELSE line \o sep \o JoinLines(line, sep, n - 1)
 
-\* one padded frame: what Padding.pad() produces for a fill of " "
+\* one padded frame: what Padding.pad() produces - a fill of " " writes spaces, an EMPTY fill
+\* (c.fill = FALSE) only moves the cursor forward and leaves the padding cells untouched
+FillN(c, n) == IF c.fill THEN SpacesN(n) ELSE MoveN("cuf", n)
 PaddedFrame(c, i) ==
   LET pw == c.l + c.rw + c.r
-      padline == SpacesN(pw)
-      body == SpacesN(c.l) \o <<Letters(i, c.rw)>> \o SpacesN(c.r)
+      padline == FillN(c, pw)
+      body == FillN(c, c.l) \o <<Letters(i, c.rw)>> \o FillN(c, c.r)
   IN Rep(padline \o <<Simple("lf")>>, c.t)
      \o JoinLines(body, <<Simple("lf")>>, c.rh)
      \o Rep(<<Simple("lf")>> \o padline, c.b)
